@@ -297,7 +297,65 @@ func observeQuery(q, df string) []string {
 	} else {
 		out = append(out, "-", "-", "-", "-", "-", "-", "-", "-", "-")
 	}
+	out = append(out, guard(func() string { return apiRelations(q, df, e) }))
 	return out
+}
+
+// relations between calls of the public API on one input, decided here (the driver only reads the verdict):
+//   - a query is accepted under two default fields that it does not mention exactly when it is accepted without one (C11, and
+//     C16: a lexical error makes Parse fail whatever the options);
+//   - decoding the encoder's bytes into a variable that already holds another expression gives what decoding into a fresh one
+//     gives (C12: "decoding those bytes" has one result);
+//   - Validate, String, %#v, Render, RenderParam and Marshal leave the expression as it was (C14).
+var usedTarget = `{"left":{"left":"zq","operator":"EQUALS","right":"zr"},"operator":"AND","right":{"left":"zs","operator":"RANGE","right":{"min":1,"max":2,"inclusive":true}}}`
+
+func apiRelations(q, df string, e *expr.Expression) string {
+	if len(q) > 4096 {
+		return "-"
+	}
+	if !strings.Contains(q, "zq1") && !strings.Contains(q, "zq2") {
+		_, err0 := lucene.Parse(q)
+		_, err2 := lucene.Parse(q, lucene.WithDefaultField("zq1"), lucene.WithDefaultField("zq2"))
+		if err2 == nil && err0 != nil {
+			l := lex.Lex(q)
+			for {
+				t := l.Next()
+				if t.Typ == lex.TErr {
+					return "DIFF:C16:lexical-error-accepted-under-two-default-fields"
+				}
+				if t.Typ == lex.TEOF {
+					break
+				}
+			}
+		}
+		if (err0 == nil) != (err2 == nil) {
+			return "DIFF:C11:acceptance-differs-under-two-unused-default-fields"
+		}
+	}
+	if e == nil {
+		return "ok"
+	}
+	before := showExpr(e)
+	b, err := json.Marshal(e)
+	if err == nil {
+		var fresh, used expr.Expression
+		e1 := json.Unmarshal(b, &fresh)
+		if json.Unmarshal([]byte(usedTarget), &used) == nil {
+			e2 := json.Unmarshal(b, &used)
+			if (e1 == nil) != (e2 == nil) || (e1 == nil && showExpr(&fresh) != showExpr(&used)) {
+				return "DIFF:C12:decoding-into-a-used-variable-differs-from-decoding-into-a-fresh-one"
+			}
+		}
+	}
+	expr.Validate(e)
+	_ = e.String()
+	_ = fmt.Sprintf("%#v", e)
+	pg.Render(e)
+	pg.RenderParam(e)
+	if showExpr(e) != before {
+		return "DIFF:C14:expression-modified-by-validate-print-render-or-encode"
+	}
+	return "ok"
 }
 
 // lexer with a script of Next (N) / Peek (P) calls
